@@ -83,6 +83,12 @@ FN_CTX = {
     "trait_default": ("trait Runner:\n    def run(self, {P}) -> {RT}:\n{B}\n", "    "),
     "newtype_method": ("type Wrapped = newtype int:\n    def run(self, {P}) -> {RT}:\n{B}\n", "    "),
     "second_fn": ("def other() -> int:\n    return 1\n\n\ndef ctx({P}) -> {RT}:\n{B}\n", ""),
+    # an earlier function binds the same names with the *opposite* mutability / other types (name-keyed state must not leak)
+    "after_fn_same_names_other_mutability": (
+        "def earlier(flag: bool) -> int:\n    mut k = 1\n    k += 1\n    mut j = 1\n    j = 2\n    mut n = 1\n    n = 5\n    mut ilist = [1]\n    ilist.append(2)\n    ilist[0] = 5\n"
+        "    mut p = Point(x=1, y=2)\n    p.x = 5\n    p.x += 1\n    mut frozen = Counter(n=0)\n    frozen.bump()\n    let m = \"s\"\n    let z = \"s\"\n    return k\n\n\ndef ctx({P}) -> {RT}:\n{B}\n",
+        "",
+    ),
 }
 
 STMT_CTX = {
@@ -114,6 +120,8 @@ STMT_CTX = {
     "after_if_expr": "let eq = 1 if flag else 2\n{S}",
     "after_nested_let": "if flag:\n    let inner_q = 1\n{S}",
     "after_call_and_method": "let tq = takes_int(n)\nmlist.append(tq)\n{S}",
+    # a closed inner block bound the same names mutably
+    "after_block_same_names_mut": "if flag:\n    mut k = 5\n    k += 1\n    mut j = 1\n    j = 2\n    mut n = 1\n    n = 3\n    mut ilist = [1]\n    ilist.append(2)\n    mut p = Point(x=0, y=0)\n    p.x = 1\n{S}",
 }
 
 # expression-position contexts for expression-level rule breakers ({E} is the offending expression incl. markers)
